@@ -425,7 +425,10 @@ where
             scratch.available()
         );
 
-        let chunk_size: usize = bit_count.div_ceil(threads);
+        assert!(threads > 0, "threads must be at least 1");
+
+        // An empty window has no work item; `chunks_mut` rejects a zero chunk size.
+        let chunk_size: usize = bit_count.div_ceil(threads).max(1);
 
         let (mut scratches, _) = scratch.split_mut(threads, scratch_thread_size);
 
